@@ -31,8 +31,8 @@ add("C15","C15_publish_never_blocks","Publish is enabled in every state and is o
  "∀ (s : St) (m : Nat), (step? s (.publish m)).isSome = true")
 add("C15","C15_buffer_absorbs","a subscriber's buffer never exceeds its capacity, and absorbs messages up to it with no receiver present (C06_delivered_if_room); buffered messages are received in order.",
  f"∀ {R}, ∀ x ∈ s.subs, x.buf.length ≤ x.cap")
-add("C15","C15_one_outcome_each","each (message, subscriber) pair ends in exactly one way: every internal step on a delivery removes it and records exactly one outcome for it.",
- "∀ (s s' : St) (a : Act), isInternal a = true → step? s a = some s' →\n    (s'.pending = s.pending ∧ s'.outcomes = s.outcomes) ∨ (s'.pending.length = s.pending.length ∧ s'.outcomes = s.outcomes) ∨\n    (s'.pending.length + 1 = s.pending.length ∧ s'.outcomes.length = s.outcomes.length + 1) ∨ s'.panicked = true")
+add("C15","C15_one_outcome_each","each (message, subscriber) pair ends in exactly one way: every internal step on a delivery removes it and records exactly one outcome for it. (Stated over reachable states: the unrestricted statement is false on unreachable states with a duplicated pending delivery — `dropDel` would remove both copies — as found by the proof attempt.)",
+ "∀ (s : St) (_ : Reach s) (s' : St) (a : Act), isInternal a = true → step? s a = some s' →\n    (s'.pending = s.pending ∧ s'.outcomes = s.outcomes) ∨ (s'.pending.length = s.pending.length ∧ s'.outcomes = s.outcomes) ∨\n    (s'.pending.length + 1 = s.pending.length ∧ s'.outcomes.length = s.outcomes.length + 1) ∨ s'.panicked = true")
 add("C15","C15_timeout_own_and_not_early","a delivery is dropped only once its own subscriber's timeout has expired: the timer is armed with that subscriber's timeout when the delivery enters its select, and `timeout` is enabled only at or after the deadline.",
  "(∀ (s s' : St) (uid sub : Nat) (x : Sub), step? s (.acquireR uid sub) = some s' → getSub s sub = some x →\n      ∀ d, findDel s' uid sub = some d → d.stage = .holding → d.deadline = s.now + x.timeout) ∧\n    (∀ (s s' : St) (uid sub : Nat), step? s (.timeout uid sub) = some s' → ∃ d, findDel s uid sub = some d ∧ d.deadline ≤ s.now)")
 add("C15","C15_callbacks_exactly_once","OnFiltered / OnTimeout are invoked exactly once per filtered / timed-out outcome of a subscriber that set them, with that message, and never otherwise.",
